@@ -249,19 +249,38 @@ def run(ctx) -> None:
                 seen_f[key] = (False, "; ".join(sorted(set(problems))) + f" — emits: {brief[:200]}")
         else:
             seen_f.setdefault(key, (True, ""))
-        # inode bookkeeping
+        # inode bookkeeping: the last thing the path does to the item's inode in the view must agree with the last thing it
+        # reports about the item's existence (the partner of a rename is the same item: it was selected by inode equality)
         vops = [(i, x) for i, x in enumerate(b.evs) if x.kind == "call" and re.fullmatch(r"self\._fs_view\.(add|discard|remove|clear)", x.extra.get("func", ""))]
         vp = []
-        qev = [i for i, x in enumerate(b.evs) if x.kind == "call" and x.extra.get("func") == "self.queue_event" and "DeletedEvent(" in x.text and fs_alias(x.text).count(SRC) and "dirname" not in fs_alias(x.text).split("DeletedEvent(")[1][:30]]
-        if deleted:
-            last_del = max(qev) if qev else -1
-            disc = [i for i, x in vops if x.extra.get("func").endswith((".discard", ".remove")) and fs_alias((x.extra.get("args") or [""])[0]) == "ev.inode" and i > last_del]
-            if not disc:
-                vp.append("the item is reported deleted but its inode stays in the view of known inodes: when the file system re-uses the inode, the new item's created event is suppressed as 'historic'")
-        else:
-            adds = [i for i, x in vops if x.extra.get("func").endswith(".add") and fs_alias((x.extra.get("args") or [""])[0]) == "ev.inode"]
-            if not adds:
-                vp.append("an item that still exists is not recorded in the view of known inodes (its spurious 'created' flag would be reported again)")
+        life = []
+        ptr = 0
+        for em in ems:
+            if em.kind != "E" or not em.args:
+                continue
+            about_item = em.args[0] == SRC or re.fullmatch(DST_RE, em.args[0]) or em.cls.endswith("MovedEvent")
+            if not about_item or not em.cls.endswith(("CreatedEvent", "DeletedEvent", "MovedEvent")):
+                continue
+            j = next((k for k in range(ptr, len(b.evs)) if b.evs[k].node is em.node), None)
+            if j is None:
+                j = ptr
+            ptr = j + 1
+            life.append((j, "gone" if em.cls.endswith("DeletedEvent") else "exists", em.brief()))
+        iops = []
+        for i, x in vops:
+            op = x.extra.get("func").rsplit(".", 1)[1]
+            a0 = fs_alias((x.extra.get("args") or [""])[0])
+            if op == "clear":
+                iops.append((i, "clear"))
+            elif a0 in ("ev.inode", "dst.inode"):
+                iops.append((i, "add" if op == "add" else "discard"))
+        final = life[-1][1] if life else "exists"
+        last = iops[-1][1] if iops else None
+        if last != "clear":
+            if final == "gone" and last != "discard":
+                vp.append(f"the item is last reported deleted ({life[-1][2][:60]}) but the last operation on its inode in the view of known inodes is `{last}`: when the file system re-uses the inode (or a hard link to it shows up), the new item's created event is suppressed as 'historic'")
+            if final == "exists" and last != "add":
+                vp.append(f"an item that still exists is not recorded in the view of known inodes (last operation: `{last}`): its spurious 'created' flag would be reported again")
         vkey = f"created={C} removed={R} renamed={N} partner={D} exists={X}"
         if vp:
             seen_v[vkey] = (False, "; ".join(vp))
@@ -383,6 +402,8 @@ VARIANTS = [
     dict(name="B header literal 16 -> 12 in the slice", expect="fire", rule="C20/header-constants-agree", edits=[(IC, "name = event_buffer[i + 16 : i + 16 + length].rstrip(b\"\\0\")", "name = event_buffer[i + 12 : i + 12 + length].rstrip(b\"\\0\")")]),
     dict(name="B advance forgets the name length", expect="fire", rule="C20/header-constants-agree", edits=[(IC, "            i += 16 + length", "            i += 16")]),
     dict(name="B FSEvents created+removed keeps the inode", expect="fire", rule="C20/fsevents-inode-bookkeeping", edits=[(FS, "                self._queue_deleted_event(event, src_path, src_dirname)\n                self._fs_view.discard(event.inode)\n\n            else:", "                self._queue_deleted_event(event, src_path, src_dirname)\n\n            else:")]),
+    dict(name="B FSEvents inode recorded once, after the rename block (re-added after the partner's removal)", expect="fire", rule="C20/fsevents-inode-bookkeeping", edits=[(FS, "                    self._queue_created_event(event, src_path, src_dirname)\n\n                self._fs_view.add(event.inode)\n\n                if event.is_modified or self._is_meta_mod(event):\n                    self._queue_modified_event(event, src_path, src_dirname)\n\n                if event.is_renamed:", "                    self._queue_created_event(event, src_path, src_dirname)\n\n                if event.is_modified or self._is_meta_mod(event):\n                    self._queue_modified_event(event, src_path, src_dirname)\n\n                if event.is_renamed:"), (FS, "                if event.is_removed:\n                    # Won't occur together with renamed.", "                self._fs_view.add(event.inode)\n\n                if event.is_removed:\n                    # Won't occur together with renamed.")]),
+    dict(name="E FSEvents redundant adds inside the rename block dropped", expect="silent", edits=[(FS, "                        self._queue_renamed_event(event, src_path, dst_path, src_dirname, dst_dirname)\n                        self._fs_view.add(event.inode)\n", "                        self._queue_renamed_event(event, src_path, dst_path, src_dirname, dst_dirname)\n"), (FS, "                        self._queue_created_event(event, src_path, src_dirname)\n                        self._fs_view.add(event.inode)\n", "                        self._queue_created_event(event, src_path, src_dirname)\n")]),
     dict(name="B FSEvents moved-out item not discarded", expect="fire", rule="C20/fsevents-inode-bookkeeping", edits=[(FS, "                        self._queue_deleted_event(event, src_path, src_dirname)\n                        self._fs_view.discard(event.inode)\n\n                        # Skip further coalesced processing.", "                        self._queue_deleted_event(event, src_path, src_dirname)\n\n                        # Skip further coalesced processing.")]),
     dict(name="B FSEvents historic filter dropped", expect="fire", rule="C20/fsevents-emission-invariants", edits=[(FS, "                if event.is_created and not self._is_historic_created_event(event):\n                    self._queue_created_event(event, src_path, src_dirname)", "                if event.is_created:\n                    self._queue_created_event(event, src_path, src_dirname)")]),
     dict(name="B FSEvents rename without sub-moved events", expect="fire", rule="C20/fsevents-emission-invariants", edits=[(FS, "                        for sub_moved_event in generate_sub_moved_events(src_path, dst_path):\n                            self.queue_event(sub_moved_event)\n", "")]),
